@@ -833,3 +833,163 @@ def corr_wcmatch(cases, nproc=8):
             nontriv.add(c[1:])
     samples = [{'file_pattern': c[1], 'exclude_pattern': c[2], 'flags': c[3], 'kill_at': c[4]} for c in keep[:: max(1, len(keep) // 4)]]
     return result(len(keep), len(nontriv), dis, samples)
+
+
+# ----------------------------------------------------------------------------------------------
+# _wcmatch._Match.match with real=True (the REALPATH decision) vs RealMatch.run_realpath
+# ----------------------------------------------------------------------------------------------
+
+class _FakeMatch:
+    def __init__(self, text, spans):
+        self._t, self._s = text, spans
+
+    def groups(self):
+        return tuple(None if sp is None else self._t[sp[0]:sp[1]] for sp in self._s)
+
+    def start(self, i):
+        return -1 if self._s[i - 1] is None else self._s[i - 1][0]
+
+    def end(self, i):
+        return -1 if self._s[i - 1] is None else self._s[i - 1][1]
+
+
+class _FakePattern:
+    """stands for a compiled regex: answers `fullmatch` from a table name -> None | list of spans"""
+    pattern = ''
+
+    def __init__(self, table):
+        self.table = table
+
+    def fullmatch(self, name):
+        sp = self.table.get(name)
+        return None if sp is None else _FakeMatch(name, sp)
+
+
+def _fs_table(root, maxdepth=5):
+    """(absolute path, kind) for the root and everything reachable below it, also through links"""
+    out = {root: 'd'}
+
+    def kind(p):
+        if os.path.islink(p):
+            return 'D' if os.path.isdir(p) else ('F' if os.path.exists(p) else 'x')
+        return 'd' if os.path.isdir(p) else 'f'
+
+    def rec(p, depth):
+        try:
+            names = os.listdir(p)
+        except OSError:
+            return
+        for n in names:
+            q = p + '/' + n
+            out[q] = kind(q)
+            if depth < maxdepth and os.path.isdir(q):
+                rec(q, depth + 1)
+    rec(root, 1)
+    return out
+
+
+def _enc_res(sp):
+    if sp is None:
+        return 'N'
+    if not sp:
+        return 'e'
+    return '+'.join('-' if g is None else '%d:%d' % g for g in sp)
+
+
+def corr_realpath(rng, specs, ncases=150, nproc=8):
+    """Real regexes compiled from glob patterns (their group spans read off `re`) and made-up group layouts, on names of
+    the tree (with and without trailing / doubled separators, missing names, absolute spellings)."""
+    import_impl()
+    import trees
+    from wcmatch import glob as Gm, _wcmatch as WMm, _wcparse as W
+    m = Model()
+    reqs, meta = [], []
+    gpats = ['**', '**/*', '**/x*', 'a/**', '*/**/*', '**/*/', '**/', '*', '*/', '*/*', 'a*/**/x*', '**/**', '**/a/**', '***/x*', '**/*.txt', 're*/**', 'v*/**', '!**/x*',
+             '**/s*/**', 'vis/**', '.link/**', '*/sub/*', '**/sub/']
+    kinds = collections.Counter()
+    for spec in specs:
+        with trees.Tree(spec) as T:
+            root = T.root
+            tbl = _fs_table(root)
+            rels = sorted(p[len(root) + 1:] for p in tbl if p != root)
+            tenc = ';'.join('%s=%s' % (enc(p), k) for p, k in sorted(tbl.items()))
+            for _ in range(ncases):
+                rel = rng.choice(rels) if rels and rng.random() < 0.85 else rng.choice(['nope', 'a/nope', 'nope/x'])
+                r = rng.random()
+                name = rel
+                if r < 0.15:
+                    name = rel + '/'
+                elif r < 0.22:
+                    name = rel.replace('/', '//', 1)
+                elif r < 0.3:
+                    name = root + '/' + rel
+                follow = rng.random() < 0.3
+                incl, excl = [], []
+                how = rng.choice(['real', 'real', 'fake'])
+                kinds[how] += 1
+                for lst, k in ((incl, rng.randint(1, 2)), (excl, rng.choice([0, 0, 1]))):
+                    for _i in range(k):
+                        if how == 'real':
+                            gp = rng.choice(gpats)
+                            if name.startswith('/'):
+                                gp = root + '/' + gp.lstrip('!')
+                            fl_ = Gm.GLOBSTAR | Gm.REALPATH | Gm.FORCEUNIX | rng.choice([0, Gm.DOTGLOB, Gm.GLOBSTARLONG, Gm.MATCHBASE])
+                            try:
+                                cm = Gm.compile(gp.lstrip('!'), flags=fl_)
+                                cp = cm._matcher._include[0]
+                            except Exception:
+                                continue
+                            tabl = {}
+                            for f_ in (name, name + '/'):
+                                mo = cp.fullmatch(f_)
+                                tabl[f_] = None if mo is None else [None if mo.group(i) is None else mo.span(i) for i in range(1, (mo.re.groups or 0) + 1)]
+                            lst.append((cp, tabl))
+                        else:
+                            tabl = {}
+                            for f_ in (name, name + '/'):
+                                if rng.random() < 0.15:
+                                    tabl[f_] = None
+                                    continue
+                                cuts = [i for i, c_ in enumerate(f_) if c_ == '/'] + [0, len(f_), max(0, len(f_) - 1)]
+                                spans = []
+                                for _g in range(rng.randint(0, 3)):
+                                    if rng.random() < 0.15:
+                                        spans.append(None)
+                                        continue
+                                    a_, b_ = sorted((rng.choice(cuts) + rng.choice([0, 0, 1]), rng.choice(cuts) + rng.choice([0, 0, 1])))
+                                    a_, b_ = min(a_, len(f_)), min(b_, len(f_))
+                                    spans.append((a_, b_))
+                                tabl[f_] = spans
+                            lst.append((_FakePattern(tabl), tabl))
+                if not incl:
+                    continue
+                inc_objs = tuple(x[0] for x in incl)
+                exc_objs = tuple(x[0] for x in excl)
+                try:
+                    got = WMm._Match(name, inc_objs, exc_objs or None, True, True, follow).match(root_dir=root)
+                    got = '1' if got else '0'
+                except Exception as e:
+                    got = 'EXC ' + type(e).__name__
+                pe = lambda lst_: ','.join('%s/%s' % (_enc_res(t.get(name)), _enc_res(t.get(name + '/'))) for _o, t in lst_) or '[]'
+                reqs.append('realpath %d %s %s %s %s %s' % (follow, enc(root), enc(name), tenc, pe(incl), pe(excl)))
+                meta.append({'name': name.replace(root, '<root>'), 'follow': follow, 'how': how, 'impl': got, 'tree': spec,
+                             'include': [t for _o, t in incl] if how == 'fake' else [getattr(o, 'pattern', '')[:120] for o, _t in incl],
+                             'exclude': [t for _o, t in excl] if how == 'fake' else [getattr(o, 'pattern', '')[:120] for o, _t in excl]})
+    outs = m.run(reqs, nproc=nproc)
+    # how many rejections are due to a symlink inside a captured `**` run: the same request with follow forced on
+    alt = m.run([r_.replace('realpath 0 ', 'realpath 1 ', 1) for r_ in reqs], nproc=nproc)
+    link_sensitive = sum(1 for o, a_ in zip(outs, alt) if o != a_)
+    dis = []
+    nontriv = 0
+    for o, me in zip(outs, meta):
+        if o != me['impl']:
+            d = dict(me)
+            d['kind'] = 'realpath'
+            d['model'] = o
+            d['include'] = repr(d['include'])[:400]
+            d['exclude'] = repr(d['exclude'])[:400]
+            dis.append(d)
+        elif me['impl'] == '1':
+            nontriv += 1
+    return result(len(reqs), nontriv, dis, [{k: (repr(v)[:200] if k in ('include', 'exclude', 'tree') else v) for k, v in me.items()} for me in meta[:2]],
+                  {'pattern_source': dict(kinds), 'accepted': nontriv, 'rejected': len(reqs) - nontriv, 'rejected_because_of_a_link': link_sensitive})
